@@ -211,6 +211,7 @@ class Exec:
         self.ghosts = {}
         self.nfresh = 0
         self.lemmas_used = []
+        self.covered = set()
         self.call_log = []
         self.local_imports = {}
         self.havocked = set()
@@ -451,6 +452,7 @@ class Exec:
                 yield (kind, st2, payload)
 
     def exec_stmt(self, node, st):
+        self.covered.add(node.lineno)
         m = getattr(self, "stmt_" + type(node).__name__, None)
         if m is None:
             raise Unsupported(f"statement {type(node).__name__} at line {node.lineno}")
